@@ -15,9 +15,12 @@ Definition plain_key (k : str) : Prop := k <> k_dollar_schema /\ k <> k_id /\ k 
 Section Data.
 (* the numbers of the data and of the schema are finite (JSON has no other) *)
 Variable fin : f64 -> Prop.
+(* null in the data is admitted only together with schemas free of allOf / anyOf / not at every level (see [local_clean]) *)
+Variable allow_null : bool.
 
 Fixpoint jd (v : goval) : Prop :=
   match v with
+  | VNil => allow_null = true
   | VBool _ | VStr _ => True
   | VFlt is32 f => is32 = false /\ fin f
   | VArr _ l => (fix all (l : list goval) : Prop := match l with [] => True | x :: t => jd x /\ all t end) l
@@ -148,6 +151,9 @@ Proof.
     = contains sch_type tys || extra).
   { intros st ex. destruct (contains st tys || ex); reflexivity. }
   destruct d as [| | |d32 fd| | |idd ld| |idd md]; try (exfalso; exact Hd); unfold type_validate; cbn [info_for_type is_string_kind is_slice_kind negb andb orb Z.eqb].
+  - (* null *)
+    transitivity (contains k_null tys); [|rewrite contains_existsb; apply existsb_ext; intros; reflexivity].
+    cbn [length Nat.eqb negb andb]. destruct (contains k_null tys); reflexivity.
   - (* bool *)
     transitivity (contains k_boolean tys); [|rewrite contains_existsb; apply existsb_ext; intros; reflexivity].
     destruct (contains k_number tys), (contains k_integer tys), (contains k_boolean tys); reflexivity.
@@ -702,7 +708,10 @@ Qed.
 
 (* ------------------------------------------------------------------ one schema level *)
 
+Definition nullsafe (s : schema) : Prop := s_all_of s = [] /\ s_any_of s = [] /\ s_not s = None.
+
 Definition local_clean (s : schema) : Prop :=
+  (allow_null = true -> nullsafe s) /\
   s_ref s = None /\ s_format s = 0 /\ s_nullable s = false /\ Forall jd (s_enum s) /\
   (s_pattern s = 0 \/ o_re_ok OR (s_pattern s) = true) /\
   array_clean s /\ object_clean s /\ comp_clean s /\ bounds_fin s.
@@ -713,7 +722,7 @@ Proof. destruct (opt_skip_schemata opt); reflexivity. Qed.
 Lemma body_agree s p q d : local_clean s -> kids goodc s -> jd d ->
   exists r, sv_body OR N opt rec_sp s p q d = Ok r /\ d4_body OR N recd s d = Some (r_valid r).
 Proof.
-  intros [_ [Hfmt [Hnull [Henum [Hpat [Harr [Hobj [Hcomp Hbf]]]]]]]] K Hd.
+  intros [Hns [_ [Hfmt [Hnull [Henum [Hpat [Harr [Hobj [Hcomp Hbf]]]]]]]]] K Hd.
   pose proof (type_agree p (s_types s) d Hd) as Ht.
   pose proof (enum_agree p s d Hd Henum) as He.
   destruct (props_agree p s d K Hcomp Hd) as [x2 [Hx2 Hc]].
@@ -724,6 +733,17 @@ Proof.
   assert (Hr1 : r_valid r1 = type_ok N s d).
   { unfold r1, type_ok. rewrite <- Ht. destruct (type_applies (s_types s) 0); [rewrite r_valid_inc, r_valid_merge, Hr0; reflexivity | exact Hr0]. }
   destruct d as [|b|x|d32 f| | |id l| |id m]; try (exfalso; exact Hd).
+  - (* null: only the type and the enumeration are looked at; the schema has no composition keyword *)
+    cbn [jd] in Hd. destruct (Hns Hd) as [Hao [Hany Hnot]]. destruct Hcomp as [Hone Hdeps].
+    assert (Hx2v : r_valid x2 = true).
+    { unfold props_validate in Hx2. rewrite Hao, Hany, Hnot, Hone, Hdeps in Hx2. cbn in Hx2. inversion Hx2. reflexivity. }
+    assert (Htn : r_valid (type_validate N p (s_types s) false 0 VNil) = type_ok N s VNil).
+    { unfold type_ok. rewrite <- Ht. unfold type_applies. cbn [Z.eqb negb orb]. destruct (s_types s); reflexivity. }
+    cbv beta iota zeta. fold r0. eexists. split; [reflexivity|]. cbn [numeric_ok string_ok array_ok object_ok].
+    repeat (rewrite r_valid_inc || rewrite r_valid_merge). rewrite Hr0, He, Htn, Hx2v.
+    match goal with |- all_opt [Some ?a; Some ?b; Some true; Some true; Some true; Some true; Some true] = _ =>
+      change (all_opt [Some a; Some b; Some true; Some true; Some true; Some true; Some true]) with (Some (a && (b && (true && (true && (true && (true && (true && true))))))))
+    end. f_equal. btauto.
   - (* boolean *)
     cbv beta iota zeta. fold r0. fold r1. rewrite Hx2. cbn [bind is_string_kind is_number_kind is_slice_kind is_map_kind format_applies andb].
     eexists. split; [reflexivity|]. cbn [numeric_ok string_ok array_ok object_ok].
@@ -789,7 +809,7 @@ Fixpoint clean (n : nat) (s : schema) {struct n} : Prop :=
 
 Lemma clean_bounded : forall n s, clean n s -> bounded n s.
 Proof.
-  induction n as [|n IH]; intros s H; [exact H|]. destruct H as [[Href _] K]. split; [exact Href|].
+  induction n as [|n IH]; intros s H; [exact H|]. destruct H as [[_ [Href _]] K]. split; [exact Href|].
   eapply kids_impl; [|exact K]. exact (IH).
 Qed.
 
@@ -797,7 +817,7 @@ Theorem clean_fragment_agrees : forall n fuel s, clean n s -> (n < fuel)%nat -> 
   exists r, sv_validate OR N opt defs fuel s p q d = Ok r /\ d4 OR N defs fuel s d = Some (r_valid r).
 Proof.
   induction n as [|n IH]; intros fuel s Hc Hlt p q d Hd; [destruct Hc|]. destruct fuel as [|f]; [lia|].
-  pose proof (clean_bounded (S n) s Hc) as Hb. destruct Hc as [Hl K]. pose proof Hl as [Href _].
+  pose proof (clean_bounded (S n) s Hc) as Hb. destruct Hc as [Hl K]. pose proof Hl as [_ [Href _]].
   cbn [sv_validate d4]. rewrite (eager_bounded defs (S n) f s Hb); [|lia]. cbn [bind].
   rewrite (resolve_ref_free defs f s Href). cbn [bind]. rewrite Href.
   apply (body_agree OR N opt Hopt_items Hopt_array Hord (sv_validate OR N opt defs f) (d4 OR N defs f) s p q d Hl); [|exact Hd].
